@@ -12,15 +12,26 @@ from sim.simlib import Sim, pdu
 TTL = 4.0
 
 
-def scenario(rng):
+def scenario(rng, again=None):
     n = rng.randrange(1, 7)
     msgs = []
     for i in range(n):
         msgs.append(dict(at=round(rng.uniform(0.2, 12.0), 3), log='L%d' % (i + 1),
                          seg=rng.random() < 0.3, react=rng.choice(('ok', 'ok', 'ok', 'reject', 'throttle', 'nack', 'silent', 'late', 'slow'))))
-    return dict(msgs=msgs, hook=rng.choice(('none', 'none', 'sending', 'received', 'error', 'all')),
-                stalls=rng.choice((0, 0, 1, 2)), drops=rng.choice((0, 0, 0, 1)), seed=rng.randrange(10 ** 9),
-                put_hook=rng.random() < 0.3, order=rng.choice((1, 7)))
+    sc = dict(msgs=msgs, hook=rng.choice(('none', 'none', 'sending', 'received', 'error', 'all')),
+              stalls=rng.choice((0, 0, 1, 2)), drops=rng.choice((0, 0, 0, 1)), seed=rng.randrange(10 ** 9),
+              put_hook=rng.random() < 0.3, order=rng.choice((1, 7)))
+    if again or (again is None and rng.random() < 0.25):
+        # the application queues a message object a second time (a retry after its outcome), or a clone of an object
+        # that has been sent already (clone() copies the sequence number the first transmission left in it)
+        k = rng.randrange(n)
+        sc['again'] = dict(log=msgs[k]['log'], mode=rng.choice(('clone', 'clone', 'same')),
+                           after=round(rng.choice((rng.uniform(0.05, 3.0), rng.uniform(9.0, 12.0))), 3))
+        if sc['again']['mode'] == 'same':
+            sc['again']['after'] = round(rng.uniform(9.0, 12.0), 3)     # after its first outcome is certain
+            msgs[k]['seg'] = False
+            sc['drops'] = 0
+    return sc
 
 
 def receipt_scenario(rng):
@@ -134,9 +145,25 @@ def run(sc):
             else:
                 orig_on_pdu(conn, p)
         s.smsc.on_pdu = on_pdu
+        queued = []
         for m in sc['msgs']:
             text = ('segmented text ' * 30) if m['seg'] else 'hello'
-            s.at(m['at'], s.enqueue, SubmitSm(short_message=text, auto_message_payload=not m['seg'], log_id=m['log'], extra_data='x' + m['log']))
+            queued.append(SubmitSm(short_message=text, auto_message_payload=not m['seg'], log_id=m['log'], extra_data='x' + m['log']))
+            s.at(m['at'], s.enqueue, queued[-1])
+        ag = sc.get('again')
+        if ag:
+            orig = next(o for o in queued if o.log_id == ag['log'])
+            t_first = next(m['at'] for m in sc['msgs'] if m['log'] == ag['log'])
+            if ag['mode'] == 'same':
+                s.at(t_first + ag['after'], s.enqueue, orig)
+            else:
+                def enqueue_clone():
+                    c = orig.clone()
+                    c.log_id = ag['log'] + 'c'
+                    c.extra_data = 'x' + ag['log'] + 'c'
+                    s.enqueue(c)
+                react_of_log[ag['log'] + 'c'] = react_of_log[ag['log']]
+                s.at(t_first + ag['after'], enqueue_clone)
         for _ in range(sc['stalls']):
             t0 = round(rng.uniform(0.3, 12.0), 3) + 0.0004
             s.at(t0, lambda: s.smsc.conns and s.smsc.conns[-1].stall(True))
@@ -161,6 +188,14 @@ def predicate(sc, ev):
     ended = [e for e in ev if e[1] == 'start-ended']
     if not ended or ended[0][2] is not None:
         return 'start() %s' % ('still running' if not ended else 'ended with %s' % ended[0][2]), None
+    # C13 on the wire: every submit_sm the SMSC reads carries a sequence number no other request of the session carried
+    # (far from wrap-around here), also when the application queues an object that was sent before, or a clone of one
+    seen_seq = {}
+    for e in ev:
+        if e[1] == 'rx' and e[3] == 4:
+            if e[4] in seen_seq:
+                return 'two submit_sm on the wire carry sequence number %d (at %.3f and %.3f)' % (e[4], seen_seq[e[4]], e[0]), None
+            seen_seq[e[4]] = e[0]
     outcomes = {}
     seq_log = dict(sc.get('_seq_log', {}))
     put_done = set()
@@ -196,9 +231,17 @@ def predicate(sc, ev):
                 if age > TTL + 2 * 2.0 + 6.0:
                     return 'message %s reported as timed out only %.3f s after it was stored (time-to-live %.1f, probes every 2 s)' % (
                         m['log'], age, TTL), None
-    for m in sc['msgs']:
+    expect = [(dict(m), 1) for m in sc['msgs']]
+    ag = sc.get('again')
+    if ag:
+        base = next(m for m in sc['msgs'] if m['log'] == ag['log'])
+        if ag['mode'] == 'same':
+            expect = [(m, 2 if m['log'] == ag['log'] else 1) for m, _ in expect]
+        else:
+            expect.append((dict(base, log=ag['log'] + 'c'), 1))
+    for m, n_want in expect:
         got = outcomes.get(m['log'], [])
-        if len(got) != 1:
+        if len(got) != n_want:
             text = 'message %s (%s%s) got %d outcomes: %s' % (m['log'], m['react'], ', segmented' if m['seg'] else '', len(got), got)
             kind = None
             if len(got) == 0:
@@ -273,16 +316,45 @@ def generate_receipts(rng, n):
         yield receipt_case(receipt_scenario(rng))
 
 
-def case_of(sc):
+def predicate13(sc, ev):
+    """C13 at session level: distinct sequence numbers on the wire; a response handed over with a log_id carries the
+    log_id of the message whose request went out under that sequence number (and of no other message)"""
+    ended = [e for e in ev if e[1] == 'start-ended']
+    if not ended or ended[0][2] is not None:
+        return 'start() %s' % ('still running' if not ended else 'ended with %s' % ended[0][2])
+    seen_seq = {}
+    for e in ev:
+        if e[1] == 'rx' and e[3] == 4:
+            if e[4] in seen_seq:
+                return 'two submit_sm on the wire carry sequence number %d (at %.3f and %.3f)' % (e[4], seen_seq[e[4]], e[0])
+            seen_seq[e[4]] = e[0]
+    seq_log = dict(sc.get('_seq_log', {}))
+    answered = set()
+    for e in ev:
+        if e[1] == 'received' and e[2] in ('SubmitSmResp', 'GenericNack') and e[4]:
+            seq = struct.unpack('!I', e[3][12:16])[0]
+            if seq_log.get(seq) != e[4]:
+                return 'the response with sequence number %d was attributed to message %s; the request with that number belongs to %s' % (
+                    seq, e[4], seq_log.get(seq))
+            if seq in answered:
+                return 'two responses with sequence number %d were attributed to message %s' % (seq, e[4])
+            answered.add(seq)
+    return None
+
+
+def case_of(sc, which='ledger'):
     ev = run(sc)
-    fail, kind = predicate(sc, ev)
+    if which == 'c13':
+        fail, kind = predicate13(sc, ev), None
+    else:
+        fail, kind = predicate(sc, ev)
     sig = ('session-ledger', sc['hook'], sc['stalls'], sc['drops'], sc['put_hook'],
-           tuple(sorted({(m['react'], m['seg']) for m in sc['msgs']}))[:4])
+           tuple(sorted({(m['react'], m['seg']) for m in sc['msgs']}))[:4], (sc.get('again') or {}).get('mode'))
     pub = {k: v for k, v in sc.items() if not k.startswith('_')}
     line = '# session-ledger %r' % (pub,)
-    return Case(line, line, sig, fail, {'op': 'session', 'sc': pub, 'kind': kind})
+    return Case(line, line, sig, fail, {'op': 'session', 'sc': pub, 'kind': kind, 'which': which})
 
 
-def generate(rng, n):
+def generate(rng, n, again=None, which='ledger'):
     for _ in range(n):
-        yield case_of(scenario(rng))
+        yield case_of(scenario(rng, again), which)
